@@ -594,9 +594,6 @@ func (h *httpServerHandler) handleGet(ctx context.Context, w http.ResponseWriter
 	// Set SSE response headers
 	sseutil.SetStandardHeaders(w)
 	w.Header().Set(httputil.SessionIDHeader, session.GetID())
-	w.WriteHeader(http.StatusOK)
-	flusher.Flush()
-	verifhook.Yield("get:headers-flushed")
 
 	// Create context, for canceling connection
 	connCtx, cancelConn := context.WithCancel(ctx)
@@ -620,8 +617,16 @@ func (h *httpServerHandler) handleGet(ctx context.Context, w http.ResponseWriter
 		lastEventID:  lastEventID,
 		sseResponder: newSSEResponder(),
 	}
+	// Register the stream before the peer can see the response headers: once the headers have
+	// arrived, everything sent to this session must reach this stream. Writers wait on writeLock
+	// until the headers are out.
+	conn.writeLock.Lock()
 	h.getSSEConnections[session.GetID()] = conn
 	h.getSSEConnectionsLock.Unlock()
+	w.WriteHeader(http.StatusOK)
+	flusher.Flush()
+	conn.writeLock.Unlock()
+	verifhook.Yield("get:headers-flushed")
 	verifhook.Yield("get:registered")
 
 	// Record connection information
